@@ -27,7 +27,7 @@ Print Assumptions c02_tags_permutation_invariant.
 
 (* one raw tag: blank -> nothing; static -> lower-cased stripped text; {e}: blank e -> nothing, a truthy non-list value
    -> its text stripped and lower-cased unless blank, a falsy value or an ExpressionError -> nothing, a list -> one tag per
-   truthy item (stripped, lower-cased — NOT checked for blankness), any other exception escapes *)
+   truthy item whose text is not blank (stripped, lower-cased), any other exception escapes *)
 Theorem c02_resolve_tag_spec :
   forall (o : oracle) (r : rule) (raw : string),
     (strip raw = "" -> resolve_tag o r raw = Some []) /\
@@ -38,24 +38,23 @@ Theorem c02_resolve_tag_spec :
       match o_dyn o r (strip (inner (strip raw))) with
       | DScalar true s => resolve_tag o r raw = Some (if is_empty (strip s) then [] else [lower (strip s)])
       | DScalar false _ => resolve_tag o r raw = Some []
-      | DList items => resolve_tag o r raw = Some (map (fun it => lower (strip (snd it))) (filter (fun it => fst it) items))
+      | DList items => resolve_tag o r raw =
+                       Some (map (fun it => lower (strip (snd it)))
+                                 (filter (fun it => (fst it && negb (is_empty (strip (snd it))))%bool) items))
       | DErr => resolve_tag o r raw = Some []
       | DCrash => resolve_tag o r raw = None
       end)).
 Proof. exact resolve_tag_spec. Qed.
 Print Assumptions c02_resolve_tag_spec.
 
-(* "non-empty tags": refuted by a list-valued {expr} with a blank item; holds when list items are non-blank *)
-Definition c02_tags_nonempty_statement : Prop := tags_nonempty_statement.
-Theorem c02_tags_nonempty_refuted : ~ c02_tags_nonempty_statement.
-Proof. exact tags_nonempty_refuted. Qed.
-Print Assumptions c02_tags_nonempty_refuted.
-Theorem c02_tags_nonempty_partial :
+(* tags are non-empty, in either mode, whatever the evaluator answers.  (History: before the fix "skip blank items of a
+   list-valued tag" this statement was refuted — a list value with a whitespace-only item put "" into the tag set; finding
+   C02/blank-item-of-list-valued-tag-kept, now fixed.  A regression re-breaks the correspondence and the union oracle.) *)
+Theorem c02_tags_nonempty :
   forall (o : oracle) (m : mode) (rules : list rule) (res : result),
-    list_items_nonblank o ->      (* every truthy item of a list-valued tag expression has non-blank text *)
     engine_match m rules o = Res res -> ~ In "" (tags res).
-Proof. exact tags_nonempty_partial. Qed.
-Print Assumptions c02_tags_nonempty_partial.
+Proof. exact tags_nonempty. Qed.
+Print Assumptions c02_tags_nonempty.
 
 (* first_match: inserting a rule without category at ANY position changes nothing but tags / tag sources / matching list *)
 Theorem c02_tag_only_neutral_first_match :
@@ -129,7 +128,7 @@ Definition ex_o : oracle :=
      o_dyn := fun _ e => if String.eqb e "source" then DScalar true " Amex " else
                          if String.eqb e "field.memo" then DScalar true "  " else
                          if String.eqb e "amount > 1" then DScalar false "False" else
-                         if String.eqb e "xs" then DList [(true, "A b"); (false, ""); (true, "c ")] else DErr;
+                         if String.eqb e "xs" then DList [(true, "A b"); (false, ""); (true, "  "); (true, "c ")] else DErr;
      o_field := fun _ _ => FErr |}.
 Definition ex_rules := [tr 0 "" [" Ride "; "{source}"; "{ }"]; tr 1 "Food" ["FOOD"; "{field.memo}"; "{nosuch}"; "ride"];
                         tr 2 "Never" ["never"]; tr 3 "" ["{xs}"; "{amount > 1}"; ""]].
@@ -143,7 +142,7 @@ Example c02_example_tags :
 Proof. vm_compute. repeat split; reflexivity. Qed.
 
 Example c02_example_hypotheses :
-  list_items_nonblank ex_o /\ ~ list_items_nonblank blank_oracle /\
+  match engine_match FirstMatch [blank_rule] blank_oracle with Res r => tags r = ["alpha"] | Crash => False end /\
   is_cat f2_tag = false /\ is_match f2_oracle f2_tag = true /\ has_sub f2_tag = true /\ has_merchant f2_tag = true /\
   spec_of f2_netflix = (50, 1, 0, 7)%Z /\ spec_of f2_tag = (50, 1, 1, 7)%Z /\
   match engine_match MostSpecific [f2_netflix; f2_tag] f2_oracle, engine_match MostSpecific [f2_netflix] f2_oracle with
@@ -151,12 +150,4 @@ Example c02_example_hypotheses :
                     (merchant b, category b, subcategory b) = ("Netflix", "Subs", "Streaming")
   | _, _ => False
   end.
-Proof.
-  split.
-  - intros r e. unfold ex_o; cbn. destruct (String.eqb e "source"); [exact I|]. destruct (String.eqb e "field.memo"); [exact I|].
-    destruct (String.eqb e "amount > 1"); [exact I|]. destruct (String.eqb e "xs"); [|exact I].
-    intros it [<-|[<-|[<-|[]]]] H; cbn in *; try discriminate; vm_compute; discriminate.
-  - split.
-    + intros H. specialize (H blank_rule "x"). cbn in H. apply (H (true, " ")); [right; left; reflexivity|reflexivity|reflexivity].
-    + vm_compute. repeat split; reflexivity.
-Qed.
+Proof. vm_compute. repeat split; reflexivity. Qed.
